@@ -30,6 +30,7 @@ import (
 	"net/http"
 	"net/url"
 	"os"
+	"path/filepath"
 	"sort"
 	"strings"
 	"sync"
@@ -329,6 +330,7 @@ type c08World struct {
 	noteMu         sync.Mutex
 	notes          map[string][]string
 	emptiedWitness []interface{}
+	symlinkWitness []interface{}
 }
 
 // withNewRedisKey runs f (a login) and returns the Redis key it created together with its value. Keys that other
@@ -1100,6 +1102,129 @@ func c08Reload(cw *c08World) {
 	}
 }
 
+// c08K8sVolume lays a file out the way Kubernetes projects ConfigMaps/Secrets: <dir>/<name> -> ..data/<name>,
+// ..data -> ..rev-N/, and an update = new revision directory + atomic swap of ..data (rename of a temporary symlink)
+// + removal of the old revision. The path handed to the proxy is the symlink <dir>/<name>.
+type c08K8sVolume struct {
+	dir, name string
+	rev       int
+}
+
+func c08NewK8sVolume(run *vfRun, dir, name, content string) *c08K8sVolume {
+	v := &c08K8sVolume{dir: dir, name: name}
+	must := func(err error) {
+		if err != nil {
+			run.T.Fatalf("c08: volume layout: %v", err)
+		}
+	}
+	must(os.MkdirAll(filepath.Join(dir, "..rev-0"), 0o755))
+	must(os.WriteFile(filepath.Join(dir, "..rev-0", name), []byte(content), 0o600))
+	must(os.Symlink("..rev-0", filepath.Join(dir, "..data")))
+	must(os.Symlink(filepath.Join("..data", name), filepath.Join(dir, name)))
+	return v
+}
+
+func (v *c08K8sVolume) Path() string { return filepath.Join(v.dir, v.name) }
+
+func (v *c08K8sVolume) Update(run *vfRun, content string) {
+	must := func(err error) {
+		if err != nil {
+			run.T.Fatalf("c08: volume update: %v", err)
+		}
+	}
+	old := fmt.Sprintf("..rev-%d", v.rev)
+	v.rev++
+	cur := fmt.Sprintf("..rev-%d", v.rev)
+	must(os.MkdirAll(filepath.Join(v.dir, cur), 0o755))
+	must(os.WriteFile(filepath.Join(v.dir, cur, v.name), []byte(content), 0o600))
+	must(os.Symlink(cur, filepath.Join(v.dir, "..data_tmp")))
+	must(os.Rename(filepath.Join(v.dir, "..data_tmp"), filepath.Join(v.dir, "..data")))
+	must(os.RemoveAll(filepath.Join(v.dir, old)))
+}
+
+// c08Symlinked: the e-mails file sits behind a symlink whose target is swapped on update (ConfigMap/Secret layout).
+// Each instance is one independent history: sessions are issued and used while listed, the volume is updated (an
+// address removed, a marker address added); within 4 s the marker must be accepted, then the removed address must be
+// refused (cookie cleared) while the retained ones stay untouched; a second and third update follow. A list that is
+// never reloaded in >= 2 independent histories is a violation, in one history the run is inconclusive.
+func c08Symlinked(cw *c08World) {
+	run := cw.run
+	pool := []string{"k0@volume.test", "k1@volume.test", "K2@Volume.Test"}
+	for hi, store := range []string{"cookie", "redis", "cookie"} {
+		listed := func(addrs ...string) []c08FileLine {
+			var l []c08FileLine
+			for _, a := range addrs {
+				l = append(l, c08FileLine{a, "plain"})
+			}
+			return l
+		}
+		lines := listed(pool...)
+		vol := c08NewK8sVolume(run, filepath.Join(cw.w.Dir, fmt.Sprintf("c08-volume-%d", hi)), "emails", c08FileText(lines))
+		p, err := cw.w.NewProxy("--session-store-type="+store, "--redis-connection-url="+cw.w.RedisURL(), "--skip-jwt-bearer-tokens=true", "--email-domain=nomatch.invalid", "--authenticated-emails-file="+vol.Path())
+		if err != nil {
+			run.T.Fatalf("c08: instance with the e-mails file behind a symlink: %v", err)
+		}
+		in := &c08Inst{Store: store, Fam: "host", P: p, Rules: c08RuleSet{Name: fmt.Sprintf("volume-%d-rev0", hi), Domains: []string{"nomatch.invalid"}, File: lines}}
+		subs := make([]*c08Subject, len(pool))
+		for i, e := range pool {
+			subs[i] = &c08Subject{Email: e, Groups: []string{"g1"}, Class: "volume", n: 9500 + hi*10 + i}
+			if err := cw.makeCreds(subs[i]); err != nil {
+				run.T.Fatalf("c08: %v", err)
+			}
+			cw.restore(subs[i])
+			cw.probe(in, "listed, before the volume is updated", "cookie", subs[i], subs[i].cookieLines[in.key()], "", "/x?a=1", true, "", fmt.Sprintf("c08k-%d-pre-%d", hi, i))
+		}
+		for upd := 1; upd <= 3; upd++ {
+			marker := fmt.Sprintf("marker-%d-%d@volume.test", hi, upd)
+			var keep []string
+			for i, e := range pool {
+				if i != (upd-1)%len(pool) {
+					keep = append(keep, e) // update n removes pool[n-1]; it comes back with the next update
+				}
+			}
+			lines = listed(append(keep, marker)...)
+			vol.Update(run, c08FileText(lines))
+			history := fmt.Sprintf("e-mails file behind a symlink (ConfigMap layout): update %d = new revision directory, atomic swap of ..data, old revision removed", upd)
+			run.Eval(fmt.Sprintf("volume|update-%d|%s", upd, store))
+			if !cw.pollAuth(p, marker, true, 160) {
+				if upd == 1 {
+					run.Count("symlinked_list_never_reloaded", 1)
+					cw.noteMu.Lock()
+					cw.symlinkWitness = append(cw.symlinkWitness, map[string]interface{}{"flags": p.Flags, "store": store, "history": history, "layout": "<dir>/emails -> ..data/emails, ..data -> ..rev-N",
+						"file_after": c08FileText(lines), "probe": "GET /oauth2/auth with a bearer token for the added address " + marker + " is still refused after 4 s"})
+					cw.noteMu.Unlock()
+				} else {
+					run.Inconclusive(fmt.Sprintf("update %d of a symlinked e-mails file not visible after 4 s (earlier updates were)", upd))
+				}
+				break
+			}
+			run.Count("symlinked_reloads_observed", 1)
+			in.Rules = c08RuleSet{Name: fmt.Sprintf("volume-%d-rev%d", hi, upd), Domains: []string{"nomatch.invalid"}, File: lines}
+			for _, s := range subs {
+				ok, _ := in.Rules.allowed(s.Email, s.Groups)
+				for _, src := range []string{"cookie", "bearer"} {
+					for t, target := range c08Targets {
+						id := fmt.Sprintf("c08k-%d-%d-%d-%s-%d", hi, upd, s.n, src, t)
+						cell := fmt.Sprintf("volume|%s|%s|%s|want=%v", src, target, store, ok)
+						if src == "cookie" {
+							cw.restore(s)
+							cw.probe(in, history, src, s, s.cookieLines[in.key()], "", target, ok, cell, id)
+						} else {
+							cw.probe(in, history, src, s, nil, "Bearer "+s.bearer, target, ok, cell, id)
+						}
+					}
+				}
+			}
+		}
+	}
+	switch n := run.Counter("symlinked_list_never_reloaded"); {
+	case n >= 2:
+		c08Violation(run, "c08:symlinked-allow-list-never-reloaded", fmt.Sprintf("in %d independent histories an e-mails file behind a symlink (ConfigMap/Secret layout) was not reloaded within 4 s of the atomic swap: removed addresses stay authorised, added ones are refused", n), cw.symlinkWitness)
+	case n == 1:
+		run.Inconclusive("a symlinked e-mails file was not reloaded within 4 s in one history only (slow reload?)")
+	}
+}
+
 func c08WriteFile(run *vfRun, path, how, text string) {
 	if how == "in-place rewrite" {
 		if err := os.WriteFile(path, []byte(text), 0o600); err != nil {
@@ -1347,6 +1472,7 @@ func TestVerif_C08(t *testing.T) {
 	phase("auth_only", func() { c08AuthOnly(cw) })
 	phase("reload", func() { c08Reload(cw) })
 	phase("logins_without_email", func() { c08NoEmailLogins(cw) })
+	phase("symlinked_file", func() { c08Symlinked(cw) })
 
 	cw.noteMu.Lock()
 	for k, v := range cw.notes {
@@ -1357,7 +1483,7 @@ func TestVerif_C08(t *testing.T) {
 	for _, c := range []struct {
 		name string
 		min  int64
-	}{{"served_allowed", 1000}, {"refused_disallowed", 1000}, {"refusals_with_cookie_deletion_checked", 500}, {"logins_refused_expected", 100}, {"logins_allowed_succeeded", 50}, {"authonly_202", 100}, {"authonly_refused", 100}, {"reloads_observed", 6}, {"sessions_split_over_several_cookies", 1}, {"emptied_lists_enforced", 4}, {"logins_without_email_refused", 8}} {
+	}{{"served_allowed", 1000}, {"refused_disallowed", 1000}, {"refusals_with_cookie_deletion_checked", 500}, {"logins_refused_expected", 100}, {"logins_allowed_succeeded", 50}, {"authonly_202", 100}, {"authonly_refused", 100}, {"reloads_observed", 6}, {"sessions_split_over_several_cookies", 1}, {"emptied_lists_enforced", 4}, {"logins_without_email_refused", 8}, {"symlinked_reloads_observed", 4}} {
 		if run.Counter(c.name) < c.min && run.Violations() == 0 {
 			fmt.Printf("INCONCLUSIVE property=C08 reason=counter %s=%d < %d: the workload did not exercise this outcome enough\n", c.name, run.Counter(c.name), c.min)
 			t.Fail()
